@@ -624,14 +624,14 @@ func vfc22MultiSeries(rng *rand.Rand, rf, nSeries int, alphabet string, realRing
 		return nil, err
 	}
 	// outcome weights: bias so that verdicts sit near the thresholds
-	bias := rng.Intn(3)
+	bias := rng.Intn(4)
 	c.outcome = map[endpointReplica]byte{}
 	for _, er := range c.ers {
 		var o byte
 		switch {
-		case bias == 0 && rng.Intn(3) > 0:
-			o = 'S'
-		case bias == 1 && rng.Intn(2) == 0:
+		case bias <= 1 && rng.Intn(8) > 0:
+			o = 'S' // mostly healthy cluster: the acknowledgement path
+		case bias == 2 && rng.Intn(2) == 0:
 			o = 'C'
 		default:
 			o = alphabet[rng.Intn(len(alphabet))]
